@@ -6,6 +6,7 @@ import DesyncModel.Tables.Panic
 import DesyncModel.Tables.Sync
 import DesyncModel.Tables.Wake
 import DesyncModel.Inv.RunReach
+import DesyncModel.Inv.ErasedReach
 
 namespace Desync.C04
 open Desync Gen
@@ -42,5 +43,14 @@ theorem sync_closure_runs_at_most_once {s : State} (hr : Reachable s) {a j owner
     (hk : jb.kind = .erasedDrain owner body ∨ jb.kind = .erasedBg owner body ∨ jb.kind = .immediate owner body) : jb.begun = false := by
   refine closure_invoked_at_most_once hr (Or.inl hpc) hj ?_
   rcases hk with h | h | h <;> rw [h] <;> rfl
+
+/-- **`sync` does not return before its own closure has been run (or destroyed)**: in every reachable state, as long as the job
+that carries the closure of a `sync` call (sync_drain / sync_background) has not been dropped, the activity of that very call
+is inside its wait loop, waiting for exactly this job — it has neither returned nor moved on.  (`ErasedInv`, the invariant
+behind C14.)  With `sync_closure_runs_at_most_once`: the call returns after its own closure ran, once. -/
+theorem sync_waits_for_its_own_closure {s : State} (hr : Reachable s) {j : Nat} {b : Job} {owner : Nat} {body : Body}
+    (hb : s.jobs[j]? = some b) (hk : b.kind = .erasedDrain owner body ∨ b.kind = .erasedBg owner body) (hnd : b.ph ≠ .done) :
+    (s.pcAt owner).awaited = some j :=
+  erased_job_owner_waits hr hb hk hnd
 
 end Desync.C04
